@@ -89,25 +89,38 @@ def gen_dir():
     return d
 
 
-_hdr_hash = None
+_dep_cache = {}
 
 
-def harness_headers_hash():
-    global _hdr_hash
-    if _hdr_hash is None:
-        h = hashlib.sha256()
-        for f in sorted(glob.glob(os.path.join(HARNESS, "**", "*.hpp"), recursive=True)):
-            h.update(f.encode())
-            h.update(open(f, "rb").read())
-        _hdr_hash = h.hexdigest()
-    return _hdr_hash
+def harness_deps_hash(src):
+    """hash of the harness headers a source includes (transitively, by scanning #include "..." lines)"""
+    if src in _dep_cache:
+        return _dep_cache[src]
+    seen = {}
+    stack = [os.path.join(HARNESS, src)]
+    while stack:
+        f = os.path.normpath(stack.pop())
+        if f in seen or not os.path.exists(f):
+            continue
+        data = open(f, "rb").read()
+        seen[f] = hashlib.sha256(data).hexdigest()
+        for m in re.finditer(rb'^\s*#\s*include\s+"([^"]+)"', data, re.M):
+            inc = m.group(1).decode()
+            for base in (os.path.dirname(f), HARNESS):
+                cand = os.path.join(base, inc)
+                if os.path.exists(cand):
+                    stack.append(cand)
+                    break
+    h = sha(*["%s:%s" % (k, v) for k, v in sorted(seen.items())])
+    _dep_cache[src] = h
+    return h
 
 
 def compile_obj(src, extra, san=True, uses_repo=True):
     """compile one TU into the content-addressed object cache; returns the object path"""
     flags = BASE_FLAGS + (SAN_FLAGS if san else []) + list(extra)
     srcp = os.path.join(HARNESS, src)
-    key = sha(open(srcp, "rb").read(), harness_headers_hash(), " ".join(flags),
+    key = sha(harness_deps_hash(src), " ".join(flags),
               repo_tree_hash() if uses_repo else "norepo")
     os.makedirs(os.path.join(BUILD, "obj"), exist_ok=True)
     obj = os.path.join(BUILD, "obj", key[:24] + ".o")
@@ -223,7 +236,9 @@ def known_findings(pid):
 # running
 # -------------------------------------------------------------------------------------------------
 
-RUN_ENV = dict(ASAN_OPTIONS="detect_leaks=0:abort_on_error=1:handle_abort=1:allocator_may_return_null=1",
+# malloc_context_size=0 + small quarantine: with rapidcheck's deep lazy call trees ASan's stack depot and
+# quarantine otherwise grow by ~10 kB per case (6 GB per process at 500k cases -> OOM kills)
+RUN_ENV = dict(ASAN_OPTIONS="detect_leaks=0:abort_on_error=1:handle_abort=1:malloc_context_size=0:quarantine_size_mb=32",
                UBSAN_OPTIONS="print_stacktrace=1:halt_on_error=1")
 
 
@@ -325,8 +340,9 @@ def merge_reports(reports):
     for r in reports:
         for name, c in r.get("checks", {}).items():
             m = checks.setdefault(name, dict(evals=0, discarded=0, nontrivial=0, labels={}, discards={}, excluded_known={},
-                                             margins={}, samples=[], failures=[], rule=c.get("rule", ""), exhaustive=False))
+                                             margins={}, samples=[], failures=[], rule=c.get("rule", ""), exhaustive=False, wall_s=0.0))
             m["evals"] += c["evals"]
+            m["wall_s"] += float(c.get("wall_s", 0) or 0)
             m["discarded"] += c["discarded"]
             m["nontrivial"] += c["nontrivial"]
             m["exhaustive"] = m["exhaustive"] or c.get("exhaustive", False)
@@ -383,7 +399,7 @@ def write_evidence(pid, tier, seed, checks, distinct, wall, violations, extra=No
         excluded_known={k: v for c in checks.values() for k, v in c["excluded_known"].items()},
         class_histogram=dict(sorted(labels.items())),
         worst_margin_err_over_tol={k: {"ratio": (v[0] if v[0] != float("inf") else "inf"), "check": v[1]} for k, v in sorted(worst.items())},
-        per_check={n: dict(evals=c["evals"], nontrivial=c["nontrivial"], discarded=c["discarded"], rule=c["rule"]) for n, c in sorted(checks.items())},
+        per_check={n: dict(evals=c["evals"], nontrivial=c["nontrivial"], discarded=c["discarded"], cpu_s=round(c.get("wall_s", 0), 1), rule=c["rule"]) for n, c in sorted(checks.items())},
         engines=cfg.get("engines", ["rapidcheck"]),
         known_findings_reported=list(known_lines),
     )
